@@ -1,5 +1,6 @@
 """C19: rules needing a missing engine capability are skipped, never misfire."""
 import glob, json, os, re, time
+from collections import Counter as _cnt
 import vlib
 from vlib import clist, cbool
 from common import proof_gate, proof_coverage
@@ -64,6 +65,115 @@ def need_reads(need):
         return []
     raise ValueError(need)
 
+
+def default_ignored():
+    """gated rules whose level in the provided configuration is `ignore` (they run only when the user configuration, or an
+    enable option, switches them on): read from /repo's bundle/regal/config/provided/data.yaml"""
+    out = []
+    try:
+        import yaml
+        d = yaml.safe_load(open(os.path.join(vlib.REPO, 'bundle', 'regal', 'config', 'provided', 'data.yaml')))
+        for c, rs in (d.get('rules') or {}).items():
+            for t, r_ in (rs or {}).items():
+                if isinstance(r_, dict) and r_.get('level') == 'ignore' and '%s/%s' % (c, t) in NEEDS:
+                    out.append('%s/%s' % (c, t))
+    except (OSError, ImportError, ValueError):
+        out = ['bugs/if-empty-object', 'custom/one-liner-rule']
+    return sorted(out)
+
+
+# the other linter options that rewrite or wrap the user configuration before it reaches Rego
+PIPE_CUSTOM = ['', 'fs', 'paths', 'file', 'fs-configured']
+PIPE_CFG = ['', 'caps-only', 'more']
+PIPE_FLAGS = ['', 'enable-all', 'disable-all-enable', 'disable-category', 'enable-category', 'disable']
+SOME_TITLES = ['use-strings-count', 'custom-has-key-construct', 'use-if', 'use-contains', 'use-rego-v1', 'sprintf-arguments-mismatch',
+               'one-liner-rule', 'deprecated-builtin', 'implicit-future-keywords', 'if-object-literal']
+
+
+def pipeline_cases(ctx, gen_targets):
+    """targets with capabilities other than regal's own x the options: each option alone on three targets, custom rules on
+    every target, no / empty user configuration x custom rules, and a seeded sample of full combinations"""
+    T = lambda **kw: dict({'engine': '', 'version': '', 'file': False, 'minus': None, 'plus': None, 'plus_bare': None, 'plus_readme': None}, **kw)
+    old, old_file = T(engine='opa', version='v0.46.0'), T(engine='opa', version='v0.46.0', file=True)
+    minus = T(minus=['object.keys', 'strings.count'])
+    mid = T(engine='opa', version='v0.59.0', minus=['sprintf'], plus=['strings.count'])
+    targets = [old, minus]
+    for g in gen_targets:   # a generated file: keyword `if` alone, no features, no object.keys
+        gg = g['gen']
+        if 'if' in gg['future_keywords'] and 'contains' not in gg['future_keywords'] and not gg['features'] and gg['without_builtins'] == ['object.keys']:
+            targets.append(g)
+            break
+    rest = [old_file, mid]
+    default = T()
+    P = lambda **kw: dict({'custom': '', 'cfg': '', 'flags': '', 'enable': None, 'prefix': False, 'input': '', 'debug': False}, **kw)
+
+    def titles():
+        return sorted(ctx.rng.shuffle(list(SOME_TITLES))[:2 + ctx.rng.below(4)])
+    singles = [P(custom=c_) for c_ in PIPE_CUSTOM[1:]] + [P(cfg=c_) for c_ in PIPE_CFG[1:]] + \
+        [P(flags=f, enable=titles() if f in ('disable-all-enable', 'disable') else None) for f in PIPE_FLAGS[1:]] + \
+        [P(prefix=True), P(input='paths'), P(prefix=True, input='paths')]
+    out = []
+    for t in targets:
+        for p_ in singles:
+            out.append(('mixed', t, dict(p_, enable=titles() if p_['flags'] in ('disable-all-enable', 'disable') else None), None))
+    for t in rest:
+        out.append(('mixed', t, P(custom='fs'), None))
+        out.append(('v1x3', t, P(custom='paths', cfg='caps-only'), None))
+    for cfg in ('nil', 'empty'):
+        for c_ in ('', 'fs', 'paths'):
+            out.append(('mixed', default, P(cfg=cfg, custom=c_), None))
+    out.append(('mixed', old, P(custom='fs', debug=True), None))
+    n = 26 if ctx.quick() else 400
+    pool = targets + rest
+    for _ in range(n):
+        t = ctx.rng.choice(pool)
+        f = ctx.rng.choice(PIPE_FLAGS)
+        inp = ctx.rng.choice(['', 'paths'])
+        p_ = P(custom=ctx.rng.choice(PIPE_CUSTOM), cfg=ctx.rng.choice(PIPE_CFG), flags=f,
+               enable=titles() if f in ('disable-all-enable', 'disable') else None, prefix=ctx.rng.below(2) == 0, input=inp)
+        s_ = ctx.rng.choice(['mixed', 'mixed', 'v1x3', 'v0x1'] + ([] if inp == 'paths' else ['stdin']))
+        dis = sorted(x for x in NEEDS if ctx.rng.below(5) == 0) if ctx.rng.below(3) == 0 and p_['cfg'] != 'caps-only' else None
+        out.append((s_, t, p_, dis))
+    return [{'set': s_, 'in': {'target': t, 'files': [], 'disabled': dis, 'pipe': p_}} for s_, t, p_, dis in out]
+
+
+def eff_disabled(cin, ignored_by_default=()):
+    """the gated rules that do not run, given the configuration and the enable/disable options of a pipeline case
+    (bundle/regal/config/config.rego ignored_rule: forced off, or level ignore and not forced on)"""
+    dis = set(cin.get('disabled') or [])
+    p_ = cin.get('pipe')
+    if not p_:
+        return sorted(dis)
+    if p_['cfg'] in ('caps-only', 'nil', 'empty'):
+        dis = set(ignored_by_default)     # no rules section: the provided levels
+    fl, en = p_['flags'], set(p_.get('enable') or [])
+    title = lambda r_: r_.split('/', 1)[1]
+    cat = lambda r_: r_.split('/', 1)[0]
+    if fl == 'enable-all':
+        return []
+    if fl == 'disable-all-enable':
+        return sorted(r_ for r_ in NEEDS if title(r_) not in en)
+    if fl == 'disable-category':
+        return sorted(dis | {r_ for r_ in NEEDS if cat(r_) == 'bugs'})
+    if fl == 'enable-category':
+        return sorted(r_ for r_ in NEEDS if cat(r_) != 'idiomatic')
+    if fl == 'disable':
+        return sorted(dis | {r_ for r_ in NEEDS if title(r_) in en})
+    return sorted(dis)
+
+
+def custom_rule_runs(p_):
+    """is the custom rule of the harness (naming/verif-custom-rule) loaded and not switched off by the options"""
+    if not p_ or not p_['custom']:
+        return False
+    return p_['flags'] in ('', 'enable-all', 'disable-category', 'disable')
+
+
+def c_pipe_case(r):
+    """Check.C19Check.pipe_case of a pipeline record"""
+    out, p_ = r['out'], r['in']['pipe']
+    user = 0 if p_['cfg'] == 'nil' else (2 if out.get('user_has_caps') else 1)
+    return '(mkPipe %d%%nat %s %s %d%%nat %s)' % (user, c_caps(out), c_caps(out['this_caps']), 1 if p_['custom'] else 0, c_caps(out['eval_caps']))
 
 BASE_KEYWORDS = ['every', 'in']      # future keywords no gate looks at: always listed in the generated files
 
@@ -171,7 +281,7 @@ def c_lcase(cin, out):
         idx = [i for i, f in enumerate(files) if f['name'] == fname]
         viol.append('(%d%%nat, %s, %d%%nat)' % (idx[0] if idx else 99, c_rule(rk), n))
     return '(mkL %s %s %s %s %s %s %d%%nat)' % (
-        c_caps(out), clist(c_rule(d) for d in (cin.get('disabled') or [])),
+        c_caps(out), clist(c_rule(d) for d in cin.get('disabled_eff', cin.get('disabled') or [])),
         clist('(mkLF %s %d%%nat)' % (c_file(kind_of(f)), KINDS.index(kind_of(f))) for f in files),
         INTERN.name('Or', 'list (rule_id * list nat)',
                     clist('(%s, %s)' % (c_rule(k), clist('%d%%nat' % out['fn'][kd]['reports'].get(k, 0) for kd in KINDS)) for k in oracle)),
@@ -208,15 +318,19 @@ def run(ctx):
     dims = capability_dimensions()
     gen_targets, gen_all = ([], True) if tier == 'replay' else generated_targets(ctx, dims)
     gen_file = os.path.join(ctx.tmp, 'generated.json')
+    pipe_cases = [] if tier == 'replay' else pipeline_cases(ctx, gen_targets)
     json.dump([{'set': s_, 'in': {'target': t, 'files': [], 'disabled': None}} for t in gen_targets
-               for s_ in (['mixed'] if ctx.quick() else ['mixed', 'v0x1', 'v0x3', 'v1x1', 'v1x3', 'stdin'])], open(gen_file, 'w'))
+               for s_ in (['mixed'] if ctx.quick() else ['mixed', 'v0x1', 'v0x3', 'v1x1', 'v1x3', 'stdin'])] + pipe_cases, open(gen_file, 'w'))
     rc, log = vlib.run([h, outp, tier, vlib.REPO, wd, cases_file, gen_file], env=dict(os.environ, VERIF_SEED=str(ctx.seed)), timeout=3000)
     if rc != 0:
         raise RuntimeError('c19 harness failed: ' + log[-3000:])
     phase('harness_run')
     recs = [json.loads(l) for l in open(outp)]
+    ign = default_ignored()
     for r in recs:   # canonical: temp paths out of the replayable input
         r['in']['target'] = {k: v for k, v in r['in']['target'].items()}
+        if r['in'].get('pipe'):
+            r['in']['disabled_eff'] = eff_disabled(r['in'], ign)
     cfg_errs = [r for r in recs if r['out'].get('config_err')]
     fn_errs = [r for r in recs if r['out'].get('fn_err')]
     ok = [r for r in recs if not r['out'].get('config_err') and not r['out'].get('fn_err')]
@@ -239,12 +353,14 @@ def run(ctx):
     base_of = {}
     for r in ok:
         t = r['in']['target']
+        if r['in'].get('pipe'):
+            continue
         if not t.get('minus') and not t.get('plus') and not t.get('plus_bare') and not t.get('plus_readme') and not t.get('gen'):
             base_of[tkey({'engine': t['engine'], 'version': t['version'], 'file': t['file']})] = r['out']['builtins'] or []
     pcases, pseen = [], set()
     for r in ok:
         t = r['in']['target']
-        if not (t.get('minus') or t.get('plus') or t.get('plus_bare') or t.get('plus_readme')):
+        if not (t.get('minus') or t.get('plus') or t.get('plus_bare') or t.get('plus_readme')) or r['in'].get('pipe'):
             continue
         bk = tkey({'engine': t['engine'], 'version': t['version'], 'file': t['file']})
         if bk not in base_of or t.get('gen'):
@@ -269,6 +385,14 @@ def run(ctx):
     chunked('l_cases', 'lcase', [c_lcase(r['in'], r['out']) for r in lint_ok])
     chunked('p_cases', 'pcase', ['(mkP %s %s %s %s %s)' % (L(base), L(r['in']['target'].get('minus')), L((r['in']['target'].get('plus') or []) + (r['in']['target'].get('plus_readme') or []) + (r['in']['target'].get('plus_bare') or [])),
                                                            L(INTERESTING), L(r['out']['builtins'])) for r, base in pcases])
+    pipe_ok = [r for r in lint_ok if r['in'].get('pipe') and r['out'].get('eval_caps')]
+    chunked('pp_cases', 'pipe_case', [c_pipe_case(r) for r in pipe_ok])
+    v += ['Definition PP1 := Eval vm_compute in failing pipeline_agrees 0 pp_cases.',
+          'Definition PP2 := Eval vm_compute in failing pipeline_meets_spec 0 pp_cases.', 'Print PP1. Print PP2.']
+    if pipe_ok:    # self-test: evaluation capabilities with one name dropped must be flagged
+        pr = json.loads(json.dumps(pipe_ok[0]))
+        pr['out']['eval_caps']['features'] = (pr['out']['eval_caps']['features'] or []) + ['verif_no_such_feature']
+        v += ['Definition S2 := Eval vm_compute in (failing pipeline_agrees 0 [%s]).' % c_pipe_case(pr), 'Print S2.']
     v += ['Definition F1 := Eval vm_compute in failing fcase_agrees 0 f_cases.',
           'Definition F2 := Eval vm_compute in failing fcase_meets_needs 0 f_cases.',
           'Definition L1 := Eval vm_compute in failing lcase_agrees 0 l_cases.',
@@ -278,7 +402,7 @@ def run(ctx):
           'Print F1. Print F2. Print L1. Print L2. Print P1. Print P2.']
     # the generated files, as loaded, realise every on/off assignment of the dimensions the model's needs table reads
     # (Model/Notices.v dims_covered; Props/C19.v c19_covering_targets_suffice says why that is enough)
-    gen_ok = [r for r in ok if r['in']['target'].get('gen')]
+    gen_ok = [r for r in ok if r['in']['target'].get('gen') and not r['in'].get('pipe')]
     gen_caps = sorted({c_caps(r['out']) for r in gen_ok})
     if gen_targets:
         v += ['Definition D1 := Eval vm_compute in (if dims_covered needs_table %s then [] else [0%%nat]).' % clist(gen_caps), 'Print D1.',
@@ -295,6 +419,9 @@ def run(ctx):
     phase('coq_eval')
     g = lambda m: vlib.parse_nat_list(cout, m) or []
     f1, f2, l1, l2, p1, p2 = g('F1'), g('F2'), g('L1'), g('L2'), g('P1'), g('P2')
+    pp1, pp2 = g('PP1'), g('PP2')
+    if pipe_ok and g('S2') != [0]:
+        raise RuntimeError('self-test failed: perturbed evaluation capabilities were not flagged by Check.C19Check.pipeline_agrees')
     d1 = g('D1') if gen_targets and gen_all else []
     if gen_targets and gen_all and g('D2') != [0]:
         raise RuntimeError('self-test failed: Model.Notices.dims_covered accepts the generated targets with one of them left out')
@@ -328,12 +455,24 @@ def run(ctx):
             bad.append((r, 'rules-skipped-count', {'rules_skipped': out['rules_skipped'], 'notices_with_severity': want_skipped}))
         if out['files_scanned'] != len(cin['files']):
             bad.append((r, 'files-scanned', out['files_scanned']))
+        if cin.get('pipe'):
+            # the capabilities handed to evaluation are the configured target's, whatever the other options are
+            ev = out.get('eval_caps') or {}
+            want_caps = {k: out.get(k) or ([] if k != 'n_builtins' else 0) for k in ('n_builtins', 'builtins', 'future_keywords', 'features')}
+            got_caps = {k: ev.get(k) or ([] if k != 'n_builtins' else 0) for k in want_caps}
+            if got_caps != want_caps:
+                bad.append((r, 'evaluation-capabilities-differ-from-target', {'configured_target': want_caps, 'handed_to_evaluation': got_caps,
+                                                                              'options': cin['pipe']}))
+            want_fired = len(cin['files']) if custom_rule_runs(cin['pipe']) else 0
+            if out.get('custom_fired', 0) != want_fired:
+                bad.append((r, 'custom-rule-did-not-run-as-configured', {'custom_rule_violations': out.get('custom_fired', 0), 'expected': want_fired,
+                                                                         'options': cin['pipe']}))
         for f in cin['files']:
             kind = kind_of(f)
             for rule, needs in NEEDS.items():
                 c, t = rule.split('/', 1)
                 nviol = (out['violations'] or {}).get(f['name'] + '|' + rule, 0)
-                if rule in (cin.get('disabled') or []):
+                if rule in cin.get('disabled_eff', cin.get('disabled') or []):
                     listed = any(n['category'] == c and n['title'] == t for n in notices)
                     if nviol or listed:
                         bad.append((r, 'disabled-rule-reported-or-listed', {'rule': rule, 'file': f, 'violations': nviol, 'listed': listed}))
@@ -387,7 +526,7 @@ def run(ctx):
     # one file vs three copies
     by_target = {}
     for r in lint_ok:
-        if not r['in'].get('disabled'):
+        if not r['in'].get('disabled') and not r['in'].get('pipe'):
             by_target.setdefault((tkey(r['in']['target']), r['stream']), {})[r['set']] = r
     copies_checked = 0
     for (tk, _), sets in by_target.items():
@@ -426,12 +565,14 @@ def run(ctx):
                              'observed': {k: r['out'].get(k) for k in ('builtins', 'future_keywords', 'features', 'violations', 'notices', 'rules_skipped', 'lint_err', 'config_err')}},
                        signature={'kind': kind, 'key': json.dumps([r['in']['target'], [kind_of(f) for f in r['in']['files']],
                                                                   detail.get('rule') if isinstance(detail, dict) else None] +
-                                                                 ([r['in']['disabled']] if r['in'].get('disabled') else []), sort_keys=True)})
+                                                                 ([r['in']['disabled']] if r['in'].get('disabled') else []) +
+                                                                 ([r['in']['pipe']] if r['in'].get('pipe') else []), sort_keys=True)})
         if len(ctx.violations) >= 4:
             break
     spec_lists = ((f2, [x[0] for x in fcases], 'Check.C19Check.fcase_meets_needs (notices = unmet needs)'),
                   (l2, lint_ok, 'Check.C19Check.skipped_is_count / needs_respected'),
-                  (p2, [x[0] for x in pcases], 'Check.C19Check.pcase_meets_spec (builtins = (base - minus) + plus)'))
+                  (p2, [x[0] for x in pcases], 'Check.C19Check.pcase_meets_spec (builtins = (base - minus) + plus)'),
+                  (pp2, pipe_ok, 'Check.C19Check.pipeline_meets_spec (capabilities handed to evaluation = configured target)'))
     for lst, pool, rel in spec_lists:
         if lst and not ctx.violations:
             r = min((pool[i] for i in lst), key=size_of)
@@ -440,7 +581,9 @@ def run(ctx):
     if not ctx.violations:
         for lst, pool, rel in ((f1, [x[0] for x in fcases], 'Check.C19Check.fcase_agrees (capabilities.rego predicates + notices of every rule vs Gen/GatedRules.v)'),
                                (l1, lint_ok, 'Check.C19Check.lcase_agrees (main.rego gate + linter.go notices/rules_skipped)'),
-                               (p1, [x[0] for x in pcases], 'Check.C19Check.pcase_agrees (plus/minus editing)')):
+                               (p1, [x[0] for x in pcases], 'Check.C19Check.pcase_agrees (plus/minus editing)'),
+                               (pp1, pipe_ok, 'Check.C19Check.pipeline_agrees (Model/Notices.v get_config: user config -> with custom rules -> merged '
+                                              'with the provided configuration vs GetConfig of the configured linter)')):
             if lst:
                 r = min((pool[i] for i in lst), key=size_of)
                 vlib.violation(ctx, {'kind': 'correspondence', 'relation': rel, 'case': r['in'], 'observed': r['out'], 'n_mismatches': len(lst)}, no_input=True)
@@ -477,6 +620,15 @@ def run(ctx):
         'config_errors': len(cfg_errs), 'lint_errors': len(lint_errs), 'harness_errors': len(fn_errs),
         'mismatch_model_fn': len(f1), 'mismatch_needs_fn': len(f2), 'mismatch_model_lint': len(l1), 'mismatch_spec_lint': len(l2),
         'mismatch_model_plusminus': len(p1), 'mismatch_spec_plusminus': len(p2), 'python_predicate_failures': len(bad),
+        'pipeline_cases': {'lint_runs': len(pipe_ok), 'mismatch_model_pipeline': len(pp1), 'mismatch_spec_pipeline': len(pp2),
+                           'custom_rules': dict(_cnt(r['in']['pipe']['custom'] or 'none' for r in pipe_ok)),
+                           'user_config': dict(_cnt(r['in']['pipe']['cfg'] or 'rules+capabilities' for r in pipe_ok)),
+                           'enable_disable_options': dict(_cnt(r['in']['pipe']['flags'] or 'none' for r in pipe_ok)),
+                           'path_prefix': dict(_cnt(str(r['in']['pipe']['prefix']) for r in pipe_ok)),
+                           'input': dict(_cnt(r['in']['pipe']['input'] or 'modules' for r in pipe_ok)),
+                           'targets': len({tkey(r['in']['target']) for r in pipe_ok}),
+                           'custom_rule_violations_total': sum(r['out'].get('custom_fired', 0) for r in pipe_ok),
+                           'gated_rules_default_ignored': ign},
         'gated_rules_never_triggered_by_the_policies': never_fires, 'plus_builtin_declarations_as_loaded': plus_decl,
         'phase_seconds': phases,
         'samples': [{'target': r['in']['target'], 'files': r['in']['files'], 'rules_skipped': r['out']['rules_skipped'],
